@@ -532,9 +532,9 @@ pub fn run(cx: &mut Ctx) {
         let _ = before;
         r.map_err(|f| (c, f))
     });
-    let n = cx.n(200_000, 10_000_000);
+    let n = cx.n(600_000, 20_000_000);
     cx.prop_check("single", n, || case_strategy(1), |c, obs| check(c, obs));
-    let n = cx.n(20_000, 1_000_000);
+    let n = cx.n(60_000, 2_000_000);
     cx.prop_check("batch", n, || case_strategy(8), |c, obs| check(c, obs));
 }
 
